@@ -22,9 +22,13 @@ for pid in ids:
             "text": LEVEL_TEXT + " " + P.get("level_text", ""),
             "design_ref": "DESIGN.md section 4, " + pid,
         },
-        "level_note": "Trusted base: the simulator (sim/sim.cpp: baton scheduler, interposed pthread/clock/atomics), the per-property "
-                      "workload and oracle (harness/wl_%s.cpp), clang-14's atomics-only TSan instrumentation. Explores sequentially "
-                      "consistent interleavings at the granularity of atomic operations and blocking calls; sampling, not proof." % pid.lower(),
+        "level_note": ("Trusted base: the simulator (sim/sim.cpp: baton scheduler, interposed pthread/clock/atomics), the per-property "
+                      "workload and oracle (harness/wl_%s.cpp), clang-14's TSan instrumentation (atomics only for libpika%s). Explores sequentially "
+                      "consistent interleavings at the granularity of %s; sampling, not proof. "
+                      "Design, deviations, findings and the sensitivity results (58 independently seeded defects) are in DESIGN.md section 0 and Appendix B.") % (
+                          pid.lower(),
+                          "; atomics and plain memory accesses for this property's header-only subject" if pid in ("C03", "C04", "C17") else "",
+                          "atomic operations, plain memory accesses of the subject and blocking calls" if pid in ("C03", "C04", "C17") else "atomic operations and blocking calls"),
         "technique": "deterministic simulation with fault injection: seeded search over schedules, virtual time and injected faults; "
                      "real pika code under a serialising baton scheduler; inline invariants + history oracles + bounded liveness in a fair quiescence phase",
     })
